@@ -347,7 +347,7 @@ static void run_history(Tape &t, Ctx &cx, uint64_t fail_at, int mode, uint64_t *
                 uint64_t fb = g_shim.faults;
                 cx.log("s%d catf(template %d, %d bytes) len %zu mem %zu ...\n", si, f.id, want, len, mem);
                 int res = call_liba(s.s, f);
-                if (res != want)
+                if (res != want || (want == 0 && g_shim.faults > fb))
                 {
                     // 0 is the documented failure value
                     if (res == 0 && g_shim.faults > fb)
